@@ -8,6 +8,7 @@
 //   F <clamp 0|1> s1..sN | cells (row-major, M words per cell)   -> "set <number of cells>"
 //   G <clamp 0|1> s1..sN                                         -> "set <number of cells>"  (large field, synthetic contents)
 //   L c1..cN                                                     -> "r1..rM | i1..i(2^N)"   (result words | indices read)
+#include "ambient.hpp"
 #include <covfie/core/backend/primitive/array.hpp>
 #include <covfie/core/backend/transformer/clamp.hpp>
 #include <covfie/core/backend/transformer/linear.hpp>
@@ -111,6 +112,7 @@ int main() {
   std::string line;
   State st;
   while (std::getline(std::cin, line)) {
+    vf::ambient();
     std::istringstream is(line);
     std::string op;
     is >> op;
